@@ -20,5 +20,5 @@ ASSUMPTIONS = [
 META = {
     "technique": "Coq proof over Q (loop invariant of the accumulating loops, algebra of the weighted mean, monotonicity and scale invariance by Forall2-induction) + T-tie of the zero-capacity tolerance + differential correspondence of SoCCalculator/CapacityCalculator (run on exact rationals) vs the model evaluated in Coq + property oracle on the implementation's outputs + integration scenarios (real BatteryPool / reference store / SendOnUpdate / fetchers on virtual time) judged against the model on the snapshot at each step",
     "level_text": "Machine-checked theorems (closed under the global context) about a Gallina model of SoCCalculator.calculate and CapacityCalculator.calculate as written (option metrics, working/present flags, isclose on equal limits, clamp, zero-capacity guard, snap to 100): the model equals the documented formulas, is None exactly when no battery qualifies, stays in [0,100], is monotone in every SoC, invariant under permutation and under scaling all capacities (when the absolute zero-capacity guard answers the same before and after), and ignores non-working / incomplete batteries. The model is tied to the code by running the real calculators on exact rationals (and the real metric fetcher for the NaN -> missing step) and comparing with the model evaluated inside Coq on thousands of generated pools with paired perturbed / scaled inputs; the property is also judged directly on the implementation's outputs.",
-    "level_note": "Trusted: Coq kernel + vm_compute, tools/translate.py (one constant), the harness and its generator, the exact-rational class (math.isclose/isnan see a binary64 rounding of the exact value). Float rounding is not modelled (float run compared within 1e-6 as supporting evidence). The wiring around the calculators (BatteryPool.soc/.capacity starting SendOnUpdate with the reference store's CURRENT working set, status updates reaching active aggregators, the fetchers' NaN drop and 2 s data timeout, SendOnUpdate's cache) is not modelled as a transition system; it is covered by the integration stream `pool`: a real BatteryPoolReferenceStore + BatteryPool on a fake in-process microgrid (real component graph, fake API client, a status channel and data channels the harness feeds) on async_solipsism virtual time, with status messages produced three ways (a fresh ComponentPoolStatus per message; ONE object mutated in place and re-sent; the real ComponentPoolStatusTracker driven through scripted per-battery trackers, incl. uncertain batteries) and scripts that vary the order of the first status message, the first request of pool.soc / pool.capacity, later status changes, metric changes, NaN metrics, batteries going silent, and metrics (SoC, capacity, limits) drifting in 20 - 4000 steps of 1e-6 - 1e-3 relative change with no other event in between; after every step the latest value each stream emitted must equal the calculators' model (and, independently, the documented aggregate) on the snapshot 'working per the last status and streaming complete data'. Only settled values (6 virtual seconds after each step) are judged, not transients.",
+    "level_note": "Trusted: Coq kernel + vm_compute, tools/translate.py (one constant), the harness and its generator, the exact-rational class (math.isclose/isnan see a binary64 rounding of the exact value). Float rounding is not modelled (float run compared within 1e-6 as supporting evidence). The wiring around the calculators (BatteryPool.soc/.capacity starting SendOnUpdate with the reference store's CURRENT working set, status updates reaching active aggregators, the fetchers' NaN drop and 2 s data timeout, SendOnUpdate's cache) is not modelled as a transition system; it is covered by the integration stream `pool`: a real BatteryPoolReferenceStore + BatteryPool on a fake in-process microgrid (real component graph, fake API client, a status channel and data channels the harness feeds) on async_solipsism virtual time, with one to three BatteryPool instances sharing the reference store (every consumer's streams judged), component data stamped either with fixed 2020 UTC times or with the current instant in aware non-UTC zones (fixed offsets east / west, zoneinfo zones), with status messages produced three ways (a fresh ComponentPoolStatus per message; ONE object mutated in place and re-sent; the real ComponentPoolStatusTracker driven through scripted per-battery trackers, incl. uncertain batteries) and scripts that vary the order of the first status message, the first request of pool.soc / pool.capacity, later status changes, metric changes, NaN metrics, batteries going silent, and metrics (SoC, capacity, limits) drifting in 20 - 4000 steps of 1e-6 - 1e-3 relative change with no other event in between; after every step the latest value each stream emitted must equal the calculators' model (and, independently, the documented aggregate) on the snapshot 'working per the last status and streaming complete data'. Only settled values (6 virtual seconds after each step) are judged, not transients.",
 }
